@@ -25,7 +25,9 @@ LEVEL_NOTE = ("Bounds in evidence.bounds. For a language absent from the previou
               "languages present in both). No totals row is required when fewer than two languages are shown.")
 
 VARIANTS = [(1, 2, 30, 0, 0), (2, 3, 30, 1, 0), (3, 1, 1200, 1, 2), (1, 2, 45, 0, 1)]  # files, functions, loc, hard, unmaintainable
-LANGS = ["Python", "JavaScript", "Java"]
+# two triples: one name a prefix of another (Java / JavaScript), and names that differ only in punctuation (C / C++ / C#)
+LANGSETS = [["Python", "JavaScript", "Java"], ["C", "C++", "C#"]]
+LANGS = [l for ls in LANGSETS for l in ls]
 CELL = re.compile(r"^(\d+)(?: \(([+-]\d+)\))?$")
 
 
@@ -406,8 +408,8 @@ def replay(case):
 
 
 def run(ctx: core.Ctx):
-    langs = LANGS  # a language present only in the PREVIOUS report needs >= 3 languages to coexist with a totals row
-    ctx.bounds = {"languages": langs, "totals_variants(files,functions,loc,hard,unmaintainable)": VARIANTS, "findings_n": "0..13",
+    # a language present only in the PREVIOUS report needs >= 3 languages to coexist with a totals row
+    ctx.bounds = {"languages": LANGSETS, "totals_variants(files,functions,loc,hard,unmaintainable)": VARIANTS, "findings_n": "0..13",
                   "findings_patterns": ["distinct", "tied", "mixed"], "files": [1, 2, 3]}
     ctx.rule = ("overview case = (current assignment, previous assignment or none), assignment = per language absent or one of 4 totals variants; "
                 "each rendered in text and Markdown (transitions = renders). findings case = (n in 0..13, length pattern, #files, full, repository, "
@@ -415,10 +417,12 @@ def run(ctx: core.Ctx):
     options = [None] + list(range(len(VARIANTS)))[: ctx.pick(2, len(VARIANTS))]
     if ctx.quick:
         options = [None, 0, 2]
-    assigns = []
-    for combo in itertools.product(options, repeat=len(langs)):
-        assigns.append({l: v for l, v in zip(langs, combo) if v is not None})
-    pairs = [(c, None) for c in assigns] + [(c, p) for c in assigns for p in assigns]
+    pairs = []
+    for langs in LANGSETS:
+        assigns = []
+        for combo in itertools.product(options, repeat=len(langs)):
+            assigns.append({l: v for l, v in zip(langs, combo) if v is not None})
+        pairs += [(c, None) for c in assigns] + [(c, p) for c in assigns for p in assigns]
     step = max(1, len(pairs) // (ctx.workers * 4) + 1)
     blocks = [("pairs", pairs[i:i + step]) for i in range(0, len(pairs), step)]
     fcases = [(n, pat, nf, full, repo, fmt) for n in range(0, 14) for pat in ("distinct", "tied", "mixed") for nf in (1, 2, 3)
